@@ -48,31 +48,45 @@ func socketpair() (net.Conn, net.Conn, error) {
 	return a, b, nil
 }
 
-// link is one proxied connection: the stub holds the far end of `in`, the runtime (the
-// adaptation's socket, or a raw peer) the far end of `out`. One goroutine per direction
-// copies and counts bytes; when the budget of a direction is used up, or on command, both
-// sides are closed. The link remembers who closed first.
+// link is one proxied connection: the stub holds the far end of `in` (a unix socketpair, or,
+// for the synchronous transport, a net.Pipe: unbuffered, a Write returns only when the
+// harness has read the bytes, and a close in the middle of it is a short write), the runtime
+// (the adaptation's socket, or a raw peer) the far end of `out`. One goroutine per direction
+// copies and counts bytes; the stub->runtime stream is read in chunks of the scripted sizes;
+// when the budget of a direction is used up, or on command, both sides are closed (after
+// `hold`, during which nothing is read any more). Reading the stub->runtime stream can be
+// stalled and resumed. The link remembers who closed first.
 type link struct {
 	n      int
 	in     net.Conn
 	out    net.Conn
 	bytes  [2]atomic.Int64
 	budget [2]int64 // < 0: unlimited
+	chunks []int    // read sizes of the stub->runtime pump (cyclic); empty: 64 KiB
+	hold   time.Duration
 
 	mu       sync.Mutex
 	closedBy string // "" = open, "stub", "runtime", "proxy"
 	closedAt time.Time
 	closedC  chan struct{}
+	gate     chan struct{} // non-nil while the stub->runtime pump is stalled
 	wg       sync.WaitGroup
 }
 
-func newLink(n int, in, out net.Conn, cutDir int, k int64) *link {
-	l := &link{n: n, in: in, out: out, closedC: make(chan struct{})}
+type linkOpts struct {
+	cutDir int // -1: none
+	k      int64
+	chunks []int
+	hold   time.Duration
+}
+
+func newLink(n int, in, out net.Conn, o linkOpts) *link {
+	l := &link{n: n, in: in, out: out, closedC: make(chan struct{}), chunks: o.chunks, hold: o.hold}
 	l.budget = [2]int64{-1, -1}
-	if cutDir == s2r || cutDir == r2s {
-		l.budget[cutDir] = k
+	if o.cutDir == s2r || o.cutDir == r2s {
+		l.budget[o.cutDir] = o.k
 	}
-	if cutDir >= 0 && k == 0 {
+	if o.cutDir >= 0 && o.k == 0 {
 		l.shut("proxy")
 		return l
 	}
@@ -80,6 +94,42 @@ func newLink(n int, in, out net.Conn, cutDir int, k int64) *link {
 	go l.pump(s2r, in, out, "stub", "runtime")
 	go l.pump(r2s, out, in, "runtime", "stub")
 	return l
+}
+
+// stall makes the runtime end stop reading what the stub sends (a read that is already
+// parked still takes one chunk); unstall resumes.
+func (l *link) stall() {
+	l.mu.Lock()
+	if l.gate == nil {
+		l.gate = make(chan struct{})
+	}
+	l.mu.Unlock()
+}
+
+func (l *link) unstall() {
+	l.mu.Lock()
+	if l.gate != nil {
+		close(l.gate)
+		l.gate = nil
+	}
+	l.mu.Unlock()
+}
+
+// passGate blocks while the link is stalled; false = the link was closed meanwhile.
+func (l *link) passGate() bool {
+	for {
+		l.mu.Lock()
+		g := l.gate
+		l.mu.Unlock()
+		if g == nil {
+			return true
+		}
+		select {
+		case <-g:
+		case <-l.closedC:
+			return false
+		}
+	}
 }
 
 // shut closes both sides; the first caller's attribution wins.
@@ -104,25 +154,39 @@ func (l *link) who() string {
 func (l *link) pump(dir int, src, dst net.Conn, srcOwner, dstOwner string) {
 	defer l.wg.Done()
 	buf := make([]byte, 64<<10)
-	for {
-		n, err := src.Read(buf)
+	for i := 0; ; i++ {
+		if dir == s2r && !l.passGate() {
+			return
+		}
+		size := len(buf)
+		if dir == s2r && len(l.chunks) > 0 {
+			if c := l.chunks[i%len(l.chunks)]; c > 0 && c < size {
+				size = c
+			}
+		}
+		bud := l.budget[dir]
+		if bud >= 0 {
+			// never take more than the budget out of the sender's hands: on the synchronous
+			// transport the bytes not read are the ones the sender's Write did not get rid of
+			if rem := bud - l.bytes[dir].Load(); rem < int64(size) {
+				size = int(rem)
+			}
+		}
+		n, err := src.Read(buf[:size])
 		if n > 0 {
-			b := buf[:n]
-			cut := false
-			if bud := l.budget[dir]; bud >= 0 {
-				if rem := bud - l.bytes[dir].Load(); int64(n) >= rem {
-					b = b[:rem]
-					cut = true
+			_, werr := dst.Write(buf[:n])
+			if bud >= 0 && l.bytes[dir].Add(int64(n)) >= bud {
+				if l.hold > 0 {
+					select {
+					case <-time.After(l.hold):
+					case <-l.closedC:
+					}
 				}
-			}
-			var werr error
-			if len(b) > 0 {
-				_, werr = dst.Write(b)
-				l.bytes[dir].Add(int64(len(b)))
-			}
-			if cut {
 				l.shut("proxy")
 				return
+			}
+			if bud < 0 {
+				l.bytes[dir].Add(int64(n))
 			}
 			if werr != nil {
 				l.shut(dstOwner)
